@@ -310,6 +310,20 @@ func (d caseDesc) size() int {
 	return len(d.Kinds)
 }
 
+// rank orders the cases of one violation class: smallest batch, then default policy, emptiest pre-state, memory.
+func (d caseDesc) rank() string {
+	pol, pre := 1, 99
+	if d.Policy == policies[0].Name {
+		pol = 0
+	}
+	for i, p := range preStates {
+		if p.Name == d.Pre {
+			pre = i
+		}
+	}
+	return fmt.Sprintf("%05d|%d|%02d|%s", d.size(), pol, pre, d.label())
+}
+
 func (d caseDesc) label() string {
 	k := strings.Join(d.Kinds, ",")
 	if d.Repeat > 0 {
@@ -417,6 +431,11 @@ func runCase(e *env, ps pathSpec, ks []kind, raw []byte, desc caseDesc, tl *tall
 	reasonAt := func(i int) string {
 		if i >= 0 && i < len(ks) && contains(offending[i], ks[i].Primary) {
 			return ks[i].Primary
+		}
+		for _, why := range offending[i] { // a defect of the item itself names it before a policy-induced one
+			if why != "pull-routes-not-allowed" && why != "deliver-routes-not-allowed" {
+				return why
+			}
 		}
 		return offending[i][0]
 	}
@@ -855,8 +874,7 @@ func (c *collector) merge(tl *tally, fs []finding) {
 		c.tl.samples = append(c.tl.samples, tl.samples...)
 	}
 	for _, f := range fs {
-		old, ok := c.findings[f.key]
-		if !ok || f.desc.size() < old.desc.size() || (f.desc.size() == old.desc.size() && f.desc.label() < old.desc.label()) {
+		if old, ok := c.findings[f.key]; !ok || f.desc.rank() < old.desc.rank() {
 			c.findings[f.key] = f
 		}
 	}
@@ -1191,6 +1209,12 @@ func TestCheck(t *testing.T) {
 		return keys[i] < keys[j]
 	})
 	r.Set("violation_keys", keys)
+	examples := map[string]string{}
+	for _, k := range keys {
+		f := c.findings[k]
+		examples[k] = fmt.Sprintf("%s -> %d %s", f.desc.label(), f.desc.Status, f.desc.Reply)
+	}
+	r.Set("violation_examples", examples)
 	for _, k := range keys {
 		f := c.findings[k]
 		key := f.key
